@@ -80,6 +80,11 @@ const char *selfName();
 // timed wait times out or a registered thread sleeps)
 long long virtualAdvanceNs();
 void advanceVirtualNs(long long ns);
+// name the next thread the calling (registered) thread creates; threads created by the code under test without a
+// name are called w1, w2, ... in creation order
+void nameNextChild(const std::string &name);
+// number of registered, unfinished threads whose name starts with prefix
+int liveThreads(const char *prefix);
 void externBegin();
 void externEnd();
 
